@@ -1335,7 +1335,52 @@ func (f *fwdScen) watch(opts map[string]string) string {
 	}, 3*time.Second) {
 		delivered = 1
 	}
-	return fmt.Sprintf("fwd watch created delivered=%d local=-", delivered)
+	if delivered == 0 {
+		return "fwd watch created delivered=0 prev=- local=-"
+	}
+	// the client asked for prev_kv (as kube-apiserver does): an update and a delete at the leader must reach the follower's
+	// client as a PUT and a DELETE event, the latter carrying the previous key-value
+	val2 := []byte(fmt.Sprintf("w%d-2", f.seq))
+	txn := func(mod int64, op *etcdserverpb.RequestOp) (*etcdserverpb.TxnResponse, error) {
+		c, cc := context.WithTimeout(context.Background(), 5*time.Second)
+		defer cc()
+		return f.leaderSrv.Txn(c, &etcdserverpb.TxnRequest{
+			Compare: []*etcdserverpb.Compare{{Target: etcdserverpb.Compare_MOD, Result: etcdserverpb.Compare_EQUAL, Key: key,
+				TargetUnion: &etcdserverpb.Compare_ModRevision{ModRevision: mod}}},
+			Success: []*etcdserverpb.RequestOp{op},
+			Failure: []*etcdserverpb.RequestOp{{Request: &etcdserverpb.RequestOp_RequestRange{RequestRange: &etcdserverpb.RangeRequest{Key: key}}}}})
+	}
+	r2, err := txn(resp.Header.Revision, &etcdserverpb.RequestOp{Request: &etcdserverpb.RequestOp_RequestPut{RequestPut: &etcdserverpb.PutRequest{Key: key, Value: val2}}})
+	if err != nil || !r2.Succeeded {
+		return "fwd watch write-failed"
+	}
+	r3, err := txn(r2.Header.Revision, &etcdserverpb.RequestOp{Request: &etcdserverpb.RequestOp_RequestDeleteRange{RequestDeleteRange: &etcdserverpb.DeleteRangeRequest{Key: key}}})
+	if err != nil || !r3.Succeeded {
+		return "fwd watch write-failed"
+	}
+	var put, del *mvccpb.Event
+	seen(func(r *etcdserverpb.WatchResponse) bool {
+		for _, e := range r.Events {
+			if !bytes.Equal(e.Kv.Key, key) {
+				continue
+			}
+			if e.Type == mvccpb.PUT && bytes.Equal(e.Kv.Value, val2) {
+				put = e
+			}
+			if e.Type == mvccpb.DELETE {
+				del = e
+			}
+		}
+		return put != nil && del != nil
+	}, 3*time.Second)
+	prev := "0"
+	switch {
+	case put == nil || del == nil:
+		prev = "lost"
+	case del.PrevKv != nil && bytes.Equal(del.PrevKv.Value, val2): // (update events carry no prev_kv on any node: not claimed)
+		prev = "1"
+	}
+	return fmt.Sprintf("fwd watch created delivered=%d prev=%s local=-", delivered, prev)
 }
 
 // noleader: a fresh etcd proxy of a follower that knows NO leader yet refuses a watch as unavailable; once the election names
